@@ -38,9 +38,12 @@ inductive Policy
 
 def prio (p : Policy) (s : SSys) : List SLabel :=
   let callers := (List.range s.callers.length).map SLabel.caller
+  let drains := (List.range s.callers.length).map SLabel.drain
+  let inputs : List SLabel := [.input .recv, .input .step, .input .quit, .input .winch, .input .kill]
+  let olds := (List.range s.olds.length).flatMap fun j => [SLabel.old j .recv, .old j .step, .old j .quit, .old j .winch, .old j .kill]
   match p with
-  | .libFirst => [.termReply, .parser, .inputRecv, .inputStep, .consume] ++ callers
-  | .callerFirst => callers ++ [.parser, .inputRecv, .inputStep, .consume, .termReply]
+  | .libFirst => [.termReply, .parser] ++ inputs ++ olds ++ [.consume] ++ callers ++ drains
+  | .callerFirst => callers ++ [.parser] ++ inputs ++ olds ++ [.consume, .termReply] ++ drains
 
 def firstEnabled (s : SSys) : List SLabel → Option SSys
   | [] => none
@@ -56,7 +59,7 @@ def runToRest (p : Policy) : Nat → SSys → SSys
     | none => s
 
 def allReturned (s : SSys) : Bool := s.callers.all (·.pc == .returned)
-def goroutinesDone (s : SSys) : Bool := s.ppc == .done && s.ipc == .done
+def goroutinesDone (s : SSys) : Bool := s.ppc == .done && s.ipc == .done && s.olds.all (·.ipc == .done)
 
 /-- One call of the main goroutine, run to rest: `(state, observation)`; the observation is
 `ret`/`hang` (did the call return) and `done`/`alive` (are the parser and input goroutines done). -/
@@ -70,8 +73,8 @@ def sessionOp (p : Policy) (fuel : Nat) (s : SSys) (op : Char) : Option (SSys ×
     some (s2, String.singleton op ++ ":" ++ (if allReturned s2 then "ret" else "hang") ++ "," ++
       (if goroutinesDone s2 then "done" else "alive"))
 
-/-- A whole session; stops at the first call that does not return or that the model cannot
-represent (a `Resume` while goroutines of the previous session are alive). -/
+/-- A whole session; stops at the first call that does not return or that is not enabled (a `Resume`
+while the parser of the previous session has not stopped, i.e. before `Suspend` returned). -/
 def session (p : Policy) (fuel : Nat) : SSys → List Char → List String
   | _, [] => []
   | s, op :: rest =>
@@ -132,18 +135,15 @@ def pointPc (s : SSys) : String → Option (Option CPc)
 
 def fuelW : Nat := 80
 
-/-- step caller `j` (or the input goroutine inside `Close`, `j = none`) until it is at `target`;
-a yield point may stand for more than one step (the guard of `Suspend` has no point of its own) -/
-def stepUntil (target : CPc) (j : Option Nat) : Nat → SSys → Except String SSys
+/-- step caller `j` until it is at `target`; a yield point may stand for more than one step (the
+guard of `Suspend` has no point of its own) -/
+def stepUntil (target : CPc) (j : Nat) : Nat → SSys → Except String SSys
   | 0, _ => .error "does not reach the program counter of the yield point"
   | n + 1, s =>
-    let l : SLabel := match j with | some j => .caller j | none => .inputStep
-    match stepWeak fuelW s l with
+    match stepWeak fuelW s (.caller j) with
     | none => .error "blocked in the model"
     | some s' =>
-      let got : Option CPc := match j with
-        | some j => s'.callers[j]?.map (·.pc)
-        | none => match s'.ipc with | .closing c => some c | .done => some .returned | _ => none
+      let got : Option CPc := s'.callers[j]?.map (·.pc)
       if got == some target then .ok s'
       else if got == some .returned || got == none then .error s!"the model is at {(got.map pcName).getD "?"}"
       else stepUntil target j n s'
@@ -157,42 +157,68 @@ def replayItem (r : Replay) (item : String) : Except String Replay :=
     | some s' => .ok { r with s := s' }
     | none => .error "a second signal while one is pending"
   | ["E", "settle"] => .ok { r with s := runHidden 400 r.s }
-  | ["I", "input.seq"] => match stepWeak fuelW r.s .inputRecv with
-    | some s' => (match s'.ipc with | .posting _ => .ok { r with s := s' } | _ => .error "input.seq: the model's input goroutine received EOF")
+  | ["I", "input.seq"] => match stepWeak fuelW r.s (.input .recv) with
+    | some s' => (match s'.ipc with | .posting _ => .ok { r with s := s' } | _ => .error "input.seq: the model's input goroutine received EOF or found the channel closed")
     | none => .error "input.seq: no sequence can be in the channel"
-  | ["I", "input.eof"] => match stepWeak fuelW r.s .inputRecv with
-    | some s' => if s'.ipc == .done then .ok { r with s := s' } else .error "input.eof: the model's input goroutine received a sequence"
-    | none => .error "input.eof: EOF cannot be in the channel"
+  | ["I", "input.eof"] =>
+    -- EOF itself must be what the goroutine receives: make the parser deliver it first
+    let s1 := if r.s.seqs.isEmpty then runHidden fuelW r.s else r.s
+    (match s1.ipc, s1.seqs with
+     | .select, .eof :: _ => (match snext s1 (.input .recv) with
+        | some s' => .ok { r with s := s' }
+        | none => .error "input.eof")
+     | _, _ => .error "input.eof: EOF is not at the head of the channel")
+  | ["I", "input.closed"] =>
+    let s1 := if r.s.seqs.isEmpty && !r.s.seqsClosed then runHidden fuelW r.s else r.s
+    (match s1.ipc, s1.seqs, s1.seqsClosed with
+     | .select, [], true => (match snext s1 (.input .recv) with
+        | some s' => .ok { r with s := s' }
+        | none => .error "input.closed")
+     | _, _, _ => .error "input.closed: the channel is not empty and closed in the model")
   | ["I", "postb.sent"] => match r.s.ipc with
-    | .posting (_ + 1) => (match stepWeak fuelW r.s .inputStep with
+    | .posting (_ + 1) => (match stepWeak fuelW r.s (.input .step) with
       | some s' => .ok { r with s := s' }
       | none => .error "postb.sent: the queue is full and nobody receives")
     | _ => .error "postb.sent: the model's input goroutine has no post to do"
+  | ["I", "postb.quit"] => match r.s.ipc with
+    | .posting (_ + 1) => (match snext r.s (.input .quit) with
+      | some s' => .ok { r with s := s' }
+      | none => .error "postb.quit: chQuit is not closed in the model")
+    | _ => .error "postb.quit: the model's input goroutine has no post to do"
   | ["I", "input.handled"] => match r.s.ipc with
-    | .posting 0 => (match snext r.s .inputStep with
+    | .posting 0 => (match snext r.s (.input .step) with
       | some s' => .ok { r with s := s' }
       | none => .error "input.handled")
     | _ => .error "input.handled: the model's input goroutine still has posts to do"
   | [role, "close.enter"] =>
     if role == "I" then
-      match stepWeak fuelW r.s .inputKill with
-      | some s' => .ok { r with s := s' }
+      match stepWeak fuelW r.s (.input .kill) with
+      | some s' => .ok { s := s', roles := (role, r.s.callers.length) :: r.roles }
       | none => .error "close.enter on the input goroutine: its select cannot take the signal arm"
     else match snext r.s .callClose with
       | some s' => .ok { s := s', roles := (role, r.s.callers.length) :: r.roles }
       | none => .error "callClose"
+  | [role, "parser.drained"] =>
+    (match r.roles.lookup role with
+     | none => .error s!"{item}: unknown role"
+     | some j =>
+       -- the caller is inside WaitClose (steps without a yield point of their own first)
+       let s1 : Except String SSys := match r.s.callers[j]?.map (·.pc) with
+         | some CPc.waitClosed => .ok r.s
+         | _ => stepUntil .waitClosed j 3 r.s
+       match s1 with
+       | .error e => .error s!"{item}: {e}"
+       | .ok s1 => match stepWeak fuelW s1 (.drain j) with
+         | some s' => .ok { r with s := s' }
+         | none => .error "parser.drained: nothing can be in the channel")
   | [role, point] =>
     match pointPc r.s point with
     | none => .error s!"unknown yield point {point}"
     | some none => .ok r
     | some (some expect) =>
-      let who : Except String (Option Nat) :=
-        if role == "I" then .ok none else match r.roles.lookup role with
-          | some j => .ok (some j)
-          | none => .error "unknown role"
-      match who with
-      | .error e => .error s!"{item}: {e}"
-      | .ok j =>
+      match r.roles.lookup role with
+      | none => .error s!"{item}: unknown role"
+      | some j =>
         if !r.s.consumer && point == "post.sent" && !(r.s.queueLen < r.s.qcap) then .error "post.sent with a full queue"
         else if !r.s.consumer && point == "post.dropped" && r.s.queueLen < r.s.qcap then .error "post.dropped although the queue has room"
         else match stepUntil expect j 3 r.s with
@@ -200,10 +226,22 @@ def replayItem (r : Replay) (item : String) : Except String Replay :=
           | .error e => .error s!"{item}: {e}"
   | _ => .error s!"malformed trace item {item}"
 
-def replayTrace (r : Replay) : List String → Except String Replay
+/-- Replay with one of two strategies for the labels that have no yield point (parser steps, the
+terminal's reply, the application's receives): `eager = false` takes them only when the next item
+needs them, `eager = true` lets them run as far as they can after every item. -/
+def replayTraceWith (eager : Bool) (r : Replay) : List String → Except String Replay
   | [] => .ok r
   | x :: rest => match replayItem r x with
-    | .ok r' => replayTrace r' rest
+    | .ok r' => replayTraceWith eager (if eager then { r' with s := runHidden fuelW r'.s } else r') rest
     | .error e => .error e
+
+/-- The trace is accepted if one of the two strategies replays it (weak trace inclusion, searched
+over two schedules of the hidden labels). -/
+def replayTrace (r : Replay) (items : List String) : Except String Replay :=
+  match replayTraceWith false r items with
+  | .ok r' => .ok r'
+  | .error e => match replayTraceWith true r items with
+    | .ok r' => .ok r'
+    | .error e2 => .error (e ++ " / eager: " ++ e2)
 
 end VaxisModel.Model.Conc
